@@ -94,6 +94,9 @@ type lcase struct {
 	Sites []lsite `json:"sites"`
 	Text  string  `json:"casketfile"`
 	Focus string  `json:"-"`
+	// TLS: the sites are HTTPS sites (self-signed); with QUIC switched on their
+	// listener also has a QUIC side, which the header limit covers as well
+	TLS bool `json:"tls,omitempty"`
 }
 
 func durText(r *lib.Rng, ms int64) string {
@@ -168,14 +171,18 @@ func (lc *lcase) render(r *lib.Rng) {
 		if used[i] {
 			continue
 		}
-		keys := []string{fmt.Sprintf("http://%s:%d", s.Host, s.Port)}
+		scheme, tlsLine := "http", ""
+		if lc.TLS {
+			scheme, tlsLine = "https", "\ttls self_signed\n"
+		}
+		keys := []string{fmt.Sprintf("%s://%s:%d", scheme, s.Host, s.Port)}
 		for j := i + 1; j < len(lc.Sites); j++ {
 			if !used[j] && lib.JSON(lc.Sites[j].Vals) == lib.JSON(s.Vals) && lc.Sites[j].Short == s.Short && r.Chance(1, 2) {
 				used[j] = true
-				keys = append(keys, fmt.Sprintf("http://%s:%d", lc.Sites[j].Host, lc.Sites[j].Port))
+				keys = append(keys, fmt.Sprintf("%s://%s:%d", scheme, lc.Sites[j].Host, lc.Sites[j].Port))
 			}
 		}
-		fmt.Fprintf(&b, "%s {\n%s}\n", strings.Join(keys, ", "), s.renderBody(r, first))
+		fmt.Fprintf(&b, "%s {\n%s%s}\n", strings.Join(keys, ", "), tlsLine, s.renderBody(r, first))
 		first = false
 	}
 	lc.Text = b.String()
@@ -221,7 +228,7 @@ func genListenerCases(c *lib.Ctx) []*lcase {
 	}
 	// random: all fields at once, short forms, decoy listener on another port
 	for k := 0; k < c.Pick(3000, 30000); k++ {
-		lc := &lcase{}
+		lc := &lcase{TLS: k%8 == 5}
 		n := 1 + r.Intn(4)
 		nd := 0
 		if r.Chance(1, 2) {
@@ -323,12 +330,17 @@ func loadAndObserve(id int, text string) loadObs {
 			o.MakeErr = fmt.Sprintf("harness: server is %T", s)
 			return o
 		}
+		quicLimit := int64(-1)
+		if n, ok := httpserver.VerifQUICMaxHeaderBytes(hs); ok {
+			quicLimit = int64(n)
+		}
 		o.Servers = append(o.Servers, srvObs{Addr: hs.Server.Addr, Fields: map[string]int64{
-			"header_limit": int64(hs.Server.MaxHeaderBytes),
-			"read":         int64(hs.Server.ReadTimeout / time.Millisecond),
-			"header":       int64(hs.Server.ReadHeaderTimeout / time.Millisecond),
-			"write":        int64(hs.Server.WriteTimeout / time.Millisecond),
-			"idle":         int64(hs.Server.IdleTimeout / time.Millisecond),
+			"quic_header_limit(-1=no QUIC side)": quicLimit,
+			"header_limit":                       int64(hs.Server.MaxHeaderBytes),
+			"read":                               int64(hs.Server.ReadTimeout / time.Millisecond),
+			"header":                             int64(hs.Server.ReadHeaderTimeout / time.Millisecond),
+			"write":                              int64(hs.Server.WriteTimeout / time.Millisecond),
+			"idle":                               int64(hs.Server.IdleTimeout / time.Millisecond),
 		}})
 	}
 	sort.Slice(o.Servers, func(i, j int) bool { return o.Servers[i].Addr < o.Servers[j].Addr })
@@ -343,6 +355,7 @@ type childIn struct {
 // listenersChild: stdin = one JSON {id, cf} per line; stdout = "R <json>" per load.
 func listenersChild(args []string) int {
 	lib.CaptureLog()
+	httpserver.QUIC = true // (-quic): TLS listeners get a QUIC side
 	sc := bufio.NewScanner(os.Stdin)
 	sc.Buffer(make([]byte, 1<<20), 1<<24)
 	w := bufio.NewWriter(os.Stdout)
@@ -518,6 +531,17 @@ func judgeListeners(c *lib.Ctx, lc *lcase, o *loadObs, defaults map[string]int64
 			}
 			if hasZero && want > 0 {
 				c.Count("listener_fields_zero_vs_positive", 1)
+			}
+			if f == "header_limit" {
+				if q := srv.Fields["quic_header_limit(-1=no QUIC side)"]; q >= 0 {
+					c.Count("listener_quic_sides_checked", 1)
+					if q != want {
+						c.Violation("C17/listener-setting-not-strictest/header_limit/quic", fmt.Sprintf("listener %s: header limits configured by its sites %v (-1 unset): the QUIC side of the listener has %d, strictest is %d", srv.Addr, sortedInt64(vals), q, want),
+							map[string]interface{}{"casketfile": lc.Text, "listener": srv.Addr, "group_values_bytes(-1=unset)": vals, "expected": want, "quic_side": q, "tcp_side": got})
+					}
+				} else if lc.TLS {
+					c.Count("listener_tls_groups_without_quic_side", 1)
+				}
 			}
 			if got == want {
 				continue
